@@ -41,7 +41,8 @@ class CaseTimeout(KeyboardInterrupt):
 
 
 def _alarm(signum, frame):
-    raise CaseTimeout()
+    import traceback
+    raise CaseTimeout(' < '.join('%s:%d %s' % (f.filename.split('/')[-1], f.lineno, f.name) for f in reversed(traceback.extract_stack(frame)[-9:])))
 
 
 class Ctx:
@@ -369,8 +370,9 @@ def run_async(case, max_steps=400):
                 it0 = env.loop.iters
                 try:
                     reason = env.loop.drive(until_vt=env.loop.time() + step, max_iters=max(1, budget))
-                except CaseTimeout:
+                except CaseTimeout as ex:
                     ar.stop = 'watchdog'
+                    ar.stop_detail = str(ex)
                     break
                 except R.LogFull:
                     ar.stop = 'iter-cap'
